@@ -139,7 +139,20 @@ struct QuantFamily {
   }
   static void observe(const Obj& sk, std::ostream& os) { body(sk, os, true); }
   static void canon(const Obj& sk, std::ostream& os) { body(sk, os, true); }
-  static void query(Env&, const Obj& sk, uint64_t seed) {
+  static void query(Env& e, const Obj& sk, uint64_t seed) {
+    // the type-converting copy constructor with an explicit allocator instance: equal to its source
+    if (seed & 8) {
+      std::ostringstream a, b;
+      body(sk, a, true);
+      {
+        Obj conv = [&] { LibScope ls; return Obj(sk, typename Kit::Less(), e.alloc<T>(static_cast<int>(seed >> 4 & 1))); }();
+        body(conv, b, true);
+        LibScope ls;
+        Obj moved(std::move(conv));
+        (void)moved.get_n();
+      }
+      expect_same(b.str(), a.str(), "copy-equals-source", std::string(name()) + ": object built by the converting copy constructor (explicit allocator) differs from its source");
+    }
     // the caching queries (a sorted view is built and kept inside the sketch) and the non-compliant to_string
     if (sk.is_empty()) { LibScope ls; { ToStringScope ts; (void)sk.to_string(false, false); } return; }
     vf::Rng r(seed);
